@@ -25,6 +25,12 @@ var mathNames = map[ir.MathFunction]string{
 	ir.MathCountTrailingZeros: "countTrailingZeros", ir.MathCountLeadingZeros: "countLeadingZeros", ir.MathCountOneBits: "countOneBits",
 	ir.MathReverseBits: "reverseBits", ir.MathFirstTrailingBit: "firstTrailingBit", ir.MathFirstLeadingBit: "firstLeadingBit",
 	ir.MathExtractBits: "extractBits", ir.MathInsertBits: "insertBits", ir.MathSign: "sign",
+	// typed only (C09: result types); the IR interpreter has no value for them
+	ir.MathLength: "length", ir.MathDistance: "distance", ir.MathDeterminant: "determinant", ir.MathTranspose: "transpose",
+	ir.MathNormalize: "normalize", ir.MathCross: "cross", ir.MathSqrt: "sqrt", ir.MathInverseSqrt: "inverseSqrt",
+	ir.MathFloor: "floor", ir.MathCeil: "ceil", ir.MathRound: "round", ir.MathTrunc: "trunc", ir.MathFract: "fract",
+	ir.MathSaturate: "saturate", ir.MathExp: "exp", ir.MathExp2: "exp2", ir.MathLog: "log", ir.MathLog2: "log2", ir.MathPow: "pow",
+	ir.MathSin: "sin", ir.MathCos: "cos", ir.MathTan: "tan", ir.MathFma: "fma", ir.MathStep: "step", ir.MathInverse: "inverse",
 }
 var relNames = map[ir.RelationalFunction]string{ir.RelationalAll: "all", ir.RelationalAny: "any", ir.RelationalIsNan: "isNan", ir.RelationalIsInf: "isInf"}
 var spaceNames = map[ir.AddressSpace]string{ir.SpaceFunction: "function", ir.SpacePrivate: "private", ir.SpaceWorkGroup: "workgroup", ir.SpaceUniform: "uniform",
